@@ -69,10 +69,28 @@ func argsType(r *rand.Rand) reflect.Type {
 		return structTypes[r.Intn(len(structTypes))]
 	}
 	n := 1 + r.Intn(4)
-	fields := make([]reflect.StructField, 0, n+1)
+	fields := make([]reflect.StructField, 0, 2*n+1)
 	used := map[string]bool{}
+	hidden := 0
+	// hide adds a field the builder must skip (`graphql:"-"` or unexported),
+	// of the neighbour's type or of another one.
+	hide := func(neighbour reflect.Type) {
+		t := neighbour
+		if t == nil || r.Intn(2) == 0 {
+			t = leafType(r)
+		}
+		hidden++
+		if r.Intn(2) == 0 {
+			fields = append(fields, reflect.StructField{Name: fmt.Sprintf("Hidden%d", hidden), Type: t, Tag: `graphql:"-"`})
+		} else {
+			fields = append(fields, reflect.StructField{Name: fmt.Sprintf("hidden%d", hidden), Type: t, PkgPath: "github.com/samsarahq/thunder/verifharness/c18"})
+		}
+	}
 	for i := 0; i < n; i++ {
 		f := reflect.StructField{Name: fmt.Sprintf("F%d", i), Type: fieldType(r, 3)}
+		if r.Intn(5) == 0 {
+			hide(f.Type) // before / between exposed fields
+		}
 		name := ""
 		if r.Intn(3) == 0 {
 			name = customNames[r.Intn(len(customNames))]
@@ -93,7 +111,7 @@ func argsType(r *rand.Rand) reflect.Type {
 		fields = append(fields, f)
 	}
 	if r.Intn(8) == 0 {
-		fields = append(fields, reflect.StructField{Name: "Hidden", Type: reflect.TypeOf(""), Tag: `graphql:"-"`})
+		hide(fields[len(fields)-1].Type) // after the last exposed field
 	}
 	return reflect.StructOf(fields)
 }
@@ -986,7 +1004,7 @@ func httpLeg(run *vlib.Run, i int, fx *fixture, argsT reflect.Type, root *wire, 
 
 // Describe records the generation rule and the trusted-base statements.
 func Describe(run *vlib.Run) {
-	run.Rule("case = args struct shape (predeclared input structs or reflect.StructOf with 1-4 fields; field types from the grammar T ::= scalar of every width | named scalar | enum (int32/string/uint8 kinds) | []byte | time.Time | TextUnmarshaler (struct, array) | named input object (incl. recursive, all-optional, skipped fields) | []T | *T, plus `graphql:\"name\"`, `,optional`, `-` tags) " +
+	run.Rule("case = args struct shape (predeclared input structs or reflect.StructOf with 1-4 fields; field types from the grammar T ::= scalar of every width | named scalar | enum (int32/string/uint8 kinds) | []byte | time.Time | TextUnmarshaler (struct, array) | named input object (incl. recursive, all-optional) | fields the builder must skip (`graphql:\"-\"` or unexported, of the neighbour's or another type) before, between and after the exposed fields of args structs and input objects, which must stay zero | []T | *T, plus `graphql:\"name\"`, `,optional`, `-` tags) " +
 		"x one generated value (ints within the type's range and +-2^53 with boundary bias, float32/float64 finite values written in shortest round-trip decimal, strings with quotes/backslashes/control characters/non-BMP runes, RFC3339 second-precision times with Z or +-hh:mm zones, base64 bytes; optional positions left out / explicitly null / given; null list entries) " +
 		"x transports {literal, variable, default with variable left out, default with variable null, value supplied next to a different default, literal containing nested variables (all modes)}; nodes that need `null` go by variable because the pinned parser has no null literal. " +
 		"Every request selects the field 1-3 times (distinct aliases, directly / in an inline fragment / in a named fragment) with the same argument text, so variables and defaults are used several times; every selection must receive the value. " +
